@@ -456,6 +456,81 @@ def kind_of(c):
     return "columns"
 
 
+# ---- crash containment: the real code is driven in forked worker processes -------------------------
+# A change that makes the C++ reader write beyond a numpy buffer corrupts the heap and aborts the process
+# some calls later.  The calls of one batch share a worker (so state carried across calls still shows); when
+# a worker dies the batch is resumed in a fresh one, and a case (for `history`: a whole sequence) that kills
+# a fresh worker on its own is reported as raising -- a failing input with a replay instead of a dead check.
+def _run_forked(fn, items, tag):
+    """[fn(x) for x in items], computed in forked workers; a call that kills a fresh worker gives None"""
+    os.makedirs(WORK["dir"], exist_ok=True)
+    path = os.path.join(WORK["dir"], "batch_%s_%d.jsonl" % (tag, os.getpid()))
+    results = []
+    while len(results) < len(items):
+        start = len(results)
+        if os.path.exists(path):
+            os.remove(path)
+        pid = os.fork()
+        if pid == 0:
+            code = 1
+            try:
+                with open(path, "w") as f:
+                    for x in items[start:]:
+                        f.write(json.dumps(fn(x)) + "\n")
+                        f.flush()
+                code = 0
+            finally:
+                os._exit(code)
+        _, status = os.waitpid(pid, 0)
+        got = []
+        if os.path.exists(path):
+            for line in open(path):
+                if line.endswith("\n"):
+                    try:
+                        got.append(json.loads(line))
+                    except ValueError:
+                        break
+        results.extend(got)
+        if status == 0 and len(results) >= len(items):
+            break
+        if len(results) < len(items) and not got:
+            # the first call of a fresh worker killed it: that call alone is the culprit
+            results.append(None)
+    if os.path.exists(path):
+        os.remove(path)
+    return results[:len(items)]
+
+
+class _Forked(Entry):
+    chunk = 300
+
+    def _remember(self, cases):
+        self._todo = cases
+        self._pos = {id(c): i for i, c in enumerate(cases)}
+        self._out = {}
+        return cases
+
+    def compute(self, c):
+        raise NotImplementedError
+
+    def crashed(self, c):
+        raise NotImplementedError
+
+    def impl(self, c):
+        k = id(c)
+        if k not in getattr(self, "_out", {}):
+            if not hasattr(self, "_out"):
+                self._todo, self._pos, self._out = [], {}, {}
+            i = self._pos.get(k)
+            batch = [c] if i is None else [x for x in self._todo[i:i + self.chunk] if id(x) not in self._out]
+            outs = _run_forked(self.compute, batch, self.name)
+            for x, o in zip(batch, outs):
+                self._out[id(x)] = self.crashed(x) if o is None else o
+        return self._out.pop(k)
+
+
+CRASH = ["err", "EOther", "the call killed the worker process (crash in the implementation)"]
+
 _CASES = {}
 
 
@@ -467,7 +542,7 @@ def all_cases(ctx, round):
     return _CASES[key]
 
 
-class Read(Entry):
+class Read(_Forked):
     name = "read"
     search_rounds = 1
     kind = None
@@ -477,7 +552,13 @@ class Read(Entry):
         self.name = kind
 
     def cases(self, ctx, round=0):
-        return [dict(c) for c in all_cases(ctx, round) if kind_of(c) == self.kind]
+        return self._remember([dict(c) for c in all_cases(ctx, round) if kind_of(c) == self.kind])
+
+    def crashed(self, c):
+        arr = build_array(c["tbl"])
+        names = [f[0] for f in c["tbl"]["fields"]]
+        fullc = [[_cells_of(arr[nm], i) for nm in names] for i in range(arr.shape[0])]
+        return {"out": CRASH, "full": fullc, "data": "", "nrows": int(arr.size)}
 
     def classify(self, c, o, v):
         """labels of the defects repaired by fixes/C02 (status 'fixed': nothing is suppressed)"""
@@ -494,7 +575,7 @@ class Read(Entry):
             return "C02.fixed_reduce_none"
         return None
 
-    def impl(self, c):
+    def compute(self, c):
         ent = prepare(c["tbl"], c["delim"], c["api"])
         names = [f[0] for f in c["tbl"]["fields"]]
         want = names if c["cols"][0] == "none" else ([c["cols"][1]] if c["cols"][0] == "name" else
@@ -515,10 +596,15 @@ class Read(Entry):
                                          crequest(c, names), cgrid(o["full"]), cout(o["out"]))
 
     def show(self, c):
-        ent = prepare(c["tbl"], c["delim"], c["api"])
+        if len(c["tbl"]["rows"][0]) > 4000:
+            return None                                   # wide rows: the replay would be megabytes of model output
+        got = _run_forked(lambda x: (lambda e: {"data": e["data"].hex(), "nrows": e["nrows"]})(prepare(x["tbl"], x["delim"], x["api"])),
+                          [c], "show")[0]
+        if got is None:
+            return None
         names = [f[0] for f in c["tbl"]["fields"]]
         pt = oracle_table(c["tbl"]) if c["delim"] is not None else []
-        return "run_request (P_of %s) %s %s" % (ctab3(pt), crfile(c["tbl"], c["delim"], ent["data"], ent["nrows"]),
+        return "run_request (P_of %s) %s %s" % (ctab3(pt), crfile(c["tbl"], c["delim"], bytes.fromhex(got["data"]), got["nrows"]),
                                                 crequest(c, names))
 
     def nontrivial(self, c, o):
@@ -1030,15 +1116,25 @@ def run_history(c):
     return outs
 
 
-class History(Entry):
+class History(_Forked):
     name = "history"
     search_rounds = 1
+    chunk = 40
 
     def cases(self, ctx, round=0):
-        return gen_histories(ctx, round)
+        return self._remember(gen_histories(ctx, round))
 
-    def impl(self, c):
+    def compute(self, c):
         return run_history(c)
+
+    def crashed(self, c):
+        outs = []
+        for st in c["steps"]:
+            arr = build_array(st["tbl"])
+            names = [f[0] for f in st["tbl"]["fields"]]
+            outs.append({"out": CRASH, "full": [[_cells_of(arr[nm], i) for nm in names] for i in range(arr.shape[0])],
+                         "data": "", "nrows": int(arr.size)})
+        return outs
 
     def _terms(self, c, outs):
         ts = []
@@ -1277,7 +1373,8 @@ def scope_monitor(ctx):
     k = ctx.n(80, 800)
     sample = r.sample(text, min(k, len(text))) + r.sample(binary, min(k, len(binary)))
     ent = Read("columns")
-    outs = [ent.impl(c) for c in sample]
+    outs = _run_forked(ent.compute, sample, "scope")
+    sample, outs = [c for c, o in zip(sample, outs) if o is not None], [o for o in outs if o is not None]
     try:
         vals = core.coq_eval(os.path.join(ctx.work, "scope"), PRE_SCOPE, [scope_term(c, o) for c, o in zip(sample, outs)],
                              tag="scope", shard=40)
